@@ -60,7 +60,7 @@ def argv_of(c, wd):
         if c['match_err_cc']:
             a += ['--match-err-cc', M]
     infile = os.path.join(wd, 'golden.smt2x')
-    a += ['-q', '-q', infile, os.path.join(wd, 'out.smt2x'), DIRECT, 'main',
+    a += ['-q', '-q', infile, os.path.join(wd, 'out.otherext'), DIRECT, 'main',
           log, 'EXTRA']
     return a, infile, log
 
